@@ -2,7 +2,7 @@
 import re
 
 from analysis import (membership_test, mirror, Prov, Guards, fmt, fmt_short, walk, roots, short, comparison, find_calls, callee_matches,
-                      must_pass, const_int_of, normalised_cmp, canon, field_writes)
+                      must_pass, const_int_of, normalised_cmp, canon, field_writes, closures_of, subst_expr, cmp_intervals)
 from facts import AnchorError, strip_closure
 from harness import Rule, guarded
 from c01 import bool_pass_edges
@@ -328,22 +328,85 @@ def r4(ctx):
         if kind not in arms:
             rule.fail("dispatch|%s|missing" % kind, "RateLimiter::allows has no arm for LimitKind::%s" % kind, loc=b.loc(b.line))
             continue
-        calls = [(bi, t) for bi, t in b.calls() if (t.callee() or "").endswith("rate_limiter::Limiter::<Key>::allows") or short(t.callee() or "").endswith("rate_limiter::Limiter::allows")]
-        mine = [(bi, t) for bi, t in calls if bi in b.reachable(arms[kind]) and not any(bi in b.reachable(tb) for k2, tb in arms.items() if k2 != kind)]
-        okk = len(mine) == 1 and fmt_short(p.operand(mine[0][1].args[0])) == lim and fmt_short(p.operand(mine[0][1].args[2])) == key and \
-            fmt_short(p.operand(mine[0][1].args[1])) == "Instant::elapsed(self.init_time)" and const_int_of(p.operand(mine[0][1].args[3])) == 1
+        is_allows = lambda t: (t.callee() or "").endswith("rate_limiter::Limiter::<Key>::allows") or short(t.callee() or "").endswith("rate_limiter::Limiter::allows")
+        # (block of the dispatching function the call belongs to, argument expressions in the dispatching function's terms)
+        calls = [(bi, [canon(p.operand(a)) for a in t.args]) for bi, t in b.calls() if is_allows(t)]
+        # `self.ip_rl.as_mut().map_or(Ok(()), |limiter| limiter.allows(now, ip, tokens))`: the call sits in a closure of a combinator; it belongs to
+        # the block that hands the closure to the combinator, its receiver is the combinator's payload
+        for cb, cp, to_caller in closures_of(facts, b):
+            for cbi, ct in cb.calls():
+                if not is_allows(ct):
+                    continue
+                host = [(bi, t) for bi, t in b.calls() if any(isinstance(x, tuple) and x and x[0] == "agg" and x[1] == "closure:" + cb.path for a in t.args for x in walk(p.operand(a)))]
+                if len(host) != 1:
+                    continue
+                hbi, ht = host[0]
+                payload = ("field", ("as", canon(p.operand(ht.args[0])), "Some"), "0")
+                MARK = ("unknown", "closure-payload")
+                args_ = [canon(subst_expr(to_caller(subst_expr(cp.operand(a), lambda x: MARK if isinstance(x, tuple) and x and x[0] == "param" and len(x) > 1 and x[1] == 2 else None)),
+                                          lambda x, payload=payload: payload if x == MARK else None)) for a in ct.args]
+                calls.append((hbi, args_))
+        mine = [(bi, a) for bi, a in calls if bi in b.reachable(arms[kind]) and not any(bi in b.reachable(tb) for k2, tb in arms.items() if k2 != kind)]
+        okk = len(mine) == 1 and len(mine[0][1]) == 4 and fmt_short(mine[0][1][0]) == lim and fmt_short(mine[0][1][2]) == key and \
+            fmt_short(mine[0][1][1]) == "Instant::elapsed(self.init_time)" and const_int_of(mine[0][1][3]) == 1
         rule.check(okk, "LimitKind::%s -> %s.allows(elapsed, %s, 1)" % (kind, lim.replace(".0", ""), key), "dispatch|%s" % kind,
-                   "RateLimiter::allows routes LimitKind::%s to %s" % (kind, [(fmt_short(p.operand(t.args[0])), fmt_short(p.operand(t.args[2]))) for _, t in mine]), loc=b.loc(b.line))
+                   "RateLimiter::allows routes LimitKind::%s to %s" % (kind, [(fmt_short(a[0]), fmt_short(a[2])) for _, a in mine if len(a) > 2]), loc=b.loc(b.line))
     # Limiter::allows: the bucket is advanced only on the accepting path; TooSoon only when now < earliest
     la = facts.one(re.escape(RL + "Limiter::<Key>::allows"))
     rule.analysed(la)
     p = Prov(la, facts)
     g = Guards(la, p, facts)
+    def is_now(x):
+        """the current time in nanoseconds: Duration::as_nanos(<the time parameter>), possibly cast"""
+        x = canon(x)
+        while x[0] == "cast":
+            x = canon(x[1])
+        return x[0] == "call" and short(x[1]).endswith("Duration::as_nanos") and x[2] and canon(x[2][0])[0] == "param"
+
+    def tat_atom(x):
+        if x[0] == "call" and short(x[1]).endswith("Ord::max") and len(x[2]) == 2:
+            if any(is_now(y) for y in x[2]) and any("or_insert" in fmt_short(y) and not is_now(y) for y in x[2]):
+                return "max(now,tat)"
+        if x[0] == "field" and x[2] == "0" and x[1][0] == "bin" and x[1][1] == "MulWithOverflow" and {fmt_short(x[1][2]), fmt_short(x[1][3])} == {"self.t", "tokens"}:
+            return "t*tokens"
+        if x[0] == "bin" and x[1] == "Mul" and {fmt_short(x[2]), fmt_short(x[3])} == {"self.t", "tokens"}:
+            return "t*tokens"
+        if x[0] == "call" and short(x[1]).endswith("Entry::or_insert"):
+            return "tat"
+        if is_now(x):
+            return "now"
+        return None
+
+    def conf_atom(x):
+        a = tat_atom(x)
+        if a:
+            return a
+        if fmt_short(x) == "self.tau":
+            return "tau"
+        return None
+    # the conformance test, found by what it compares: x = now - (tat + t*tokens - tau); the request is refused where x < 0
     early = []
+    conf_seen = []
     for bi, t, e in g.switches():
-        c = comparison(e)
-        if c and c[0] == "<" and "time_since_start" in fmt_short(c[1]) and "saturating_sub" in fmt_short(c[2]):
-            early.append((bi, g.bool_edges(bi)))
+        nc = normalised_cmp(e, conf_atom)
+        if nc and set(nc[0]) == {"now", "tat", "t*tokens", "tau"} and nc[1] == 0:
+            d, k, op = nc
+            sgn = d["now"]
+            if d != {"now": sgn, "tat": -sgn, "t*tokens": -sgn, "tau": sgn} or abs(sgn) != 1:
+                conf_seen.append((d, k, op))
+                continue
+            ivs = cmp_intervals(sgn, k, op)
+            if ivs is None:
+                continue
+            f_, tr_ = g.bool_edges(bi)
+            (lo_t, hi_t), (lo_f, hi_f) = ivs
+            if hi_t is not None and hi_t <= -1 and lo_f is not None and lo_f >= 0:
+                early.append((bi, (f_, tr_)))           # true edge refuses
+            elif hi_f is not None and hi_f <= -1 and lo_t is not None and lo_t >= 0:
+                early.append((bi, (tr_, f_)))           # false edge refuses (the test is written as the acceptance `now >= earliest`)
+            else:
+                conf_seen.append((d, k, op))
+    early = [x for i, x in enumerate(early) if x not in early[:i]]
     writes = [blk.idx for blk in la.blocks for s in blk.stmts if s.k == "a" and s.lhs.proj == ("*",) and blk.idx in la.live_blocks() and
               "u64" in la.local_ty(s.lhs.local)]
     oks = [blk for lhs, kind, payload, blk, _l in p.defs.get(0, ()) if kind == "rv" and payload.k == "agg" and payload.j.get("variant") == "Ok"]
@@ -359,21 +422,6 @@ def r4(ctx):
                "Limiter::allows advances the bucket of a refused request or refuses outside `now < earliest_time`", loc=la.loc(la.line))
     # the accepted request advances the bucket from max(now, old tat): idle time is not credited beyond a full bucket
     from analysis import linear
-
-    def tat_atom(x):
-        if x[0] == "call" and short(x[1]).endswith("Ord::max") and len(x[2]) == 2:
-            sides = sorted(fmt_short(y) for y in x[2])
-            if any("time_since_start" in y and "or_insert" not in y for y in sides) and any("or_insert" in y for y in sides):
-                return "max(now,tat)"
-        if x[0] == "field" and x[2] == "0" and x[1][0] == "bin" and x[1][1] == "MulWithOverflow" and {fmt_short(x[1][2]), fmt_short(x[1][3])} == {"self.t", "tokens"}:
-            return "t*tokens"
-        if x[0] == "bin" and x[1] == "Mul" and {fmt_short(x[2]), fmt_short(x[3])} == {"self.t", "tokens"}:
-            return "t*tokens"
-        if x[0] == "call" and short(x[1]).endswith("Entry::or_insert"):
-            return "tat"
-        if fmt_short(x) == "Duration::as_nanos(time_since_start)":
-            return "now"
-        return None
     forms = []
     for blk in la.blocks:
         for s_ in blk.stmts:
@@ -390,25 +438,9 @@ def r4(ctx):
     rule.check(okk, "accepted request: tat := max(now, tat) + t * tokens", "limiter|tat-update",
                "Limiter::allows advances the bucket as %s instead of max(now, tat) + t*tokens: an idle key is credited its whole idle time (unbounded burst), and pruning the key changes later decisions" % forms,
                loc=la.loc(la.line))
-    # the conformance test: refuse iff now < tat + t*tokens - tau
-    def conf_atom(x):
-        a = tat_atom(x)
-        if a:
-            return a
-        if fmt_short(x) == "self.tau":
-            return "tau"
-        return None
-    conf = []
-    for bi, t, e in g.switches():
-        nc = normalised_cmp(e, conf_atom)
-        if nc and set(nc[0]) == {"now", "tat", "t*tokens", "tau"}:
-            conf.append(nc)
-    okc = len(set(bi_ for bi_ in [0])) == 1 and bool(conf)
-    for d, k, op in conf:
-        s_ = d["now"]
-        okc = okc and k == 0 and d == {"now": s_, "tat": -s_, "t*tokens": -s_, "tau": s_} and ((s_ == 1 and op == "<") or (s_ == -1 and op == ">"))
-    rule.check(okc, "refusal test: now < (tat + t*tokens) - tau", "limiter|conformance-test",
-               "Limiter::allows refuses on %s instead of now < tat + t*tokens - tau" % (conf,), loc=la.loc(la.line))
+    # the conformance test: refuse iff now < tat + t*tokens - tau (either orientation, either branch order)
+    rule.check(len(early) == 1 and not conf_seen, "refusal test: now < (tat + t*tokens) - tau", "limiter|conformance-test",
+               "Limiter::allows does not refuse exactly where now < tat + t*tokens - tau (other tests over these quantities: %s)" % (conf_seen,), loc=la.loc(la.line))
     # prune
     pc = facts.one(re.escape(RL + "Limiter::<Key>::prune") + r"::\{closure#0\}")
     rule.analysed(pc)
